@@ -2,6 +2,4 @@ package worker
 
 import "verif/internal/sb"
 
-func opConc(req *sb.Req) *sb.Resp       { return &sb.Resp{Status: "infra", Err: "not implemented"} }
-func opLeak(req *sb.Req) *sb.Resp       { return &sb.Resp{Status: "infra", Err: "not implemented"} }
 func opFilterGrid(req *sb.Req) *sb.Resp { return &sb.Resp{Status: "infra", Err: "not implemented"} }
